@@ -14,6 +14,7 @@ package c15
 import (
 	"fmt"
 	"math/big"
+	"runtime/debug"
 	"strings"
 	"testing"
 
@@ -141,7 +142,21 @@ func TestC15B_MemoryVsGas(t *testing.T) {
 		cfg.Excl = excl
 		mode := []string{evmgen.ModeTracedEnforced, evmgen.ModeTracedBypass}[rapid.IntRange(0, 1).Draw(rt, "c15bmode")]
 		c := evmgen.GenCase(rt, evmgen.CaseOpts{Cfg: cfg, AllowETX: true, ForceMode: mode, ContractPct: 80})
-		o, err := c.Run()
+		var o *evmgen.Outcome
+		var err error
+		func() {
+			// no generated program may crash the interpreter
+			defer func() {
+				if r := recover(); r != nil {
+					cr := analyse(r, debug.Stack())
+					stats.Violation(rt, "memgas", "C15/panic/"+cr.fp, fmt.Sprintf("executing a generated program panics: %v", r), c15bDump(c, nil, map[string]any{"panic": fmt.Sprint(r), "stack_top": cr.fp}))
+				}
+			}()
+			o, err = c.Run()
+		}()
+		if o == nil && err == nil {
+			return
+		}
 		if err != nil {
 			rt.Fatalf("HARNESS: %v", err)
 		}
